@@ -132,6 +132,19 @@ func (g *G) genBody(f *am.Fun) {
 				}
 			}
 		}
+		// repeated targets: several cases of a switch (or a case and the default, or both arms of a
+		// conditional branch) may lead to the same block
+		if s.kind == "switch" && g.chance("swdup", 1, 3) {
+			for k := g.rng("nswdup", 1, 2); k > 0; k-- {
+				s.succs = append(s.succs, s.succs[g.intn("swdupi", len(s.succs))])
+			}
+			g.feat("cfg/switch-repeated-target")
+		}
+		if s.kind == "br" && nc == 1 && g.chance("brdup", 1, 8) {
+			s.kind = "condbr"
+			s.succs = []int{s.succs[0], s.succs[0]}
+			g.feat("cfg/condbr-same-target")
+		}
 	}
 	// landing blocks must not be targeted by ordinary edges: children edges of non-invoke parents are fine
 	// because only the invoke's second child was marked. Remove back edges into landing blocks.
@@ -172,8 +185,26 @@ func (g *G) genBody(f *am.Fun) {
 	// phi incoming values
 	for i := range st.sk {
 		for _, phi := range st.phis[i] {
-			for _, p := range uniq(st.sk[i].preds) {
-				v := g.pickAvailable(st, p, len(st.vals[p]), phi.T, true)
+			// one entry per incoming edge (as the emitted terminators have them: a switch over a narrow
+			// type may have dropped cases); edges from the same block carry the same value
+			byPred := map[int]*am.Value{}
+			var edges []int
+			for p, ps := range st.sk {
+				if ps.b.Term == nil {
+					continue
+				}
+				for _, tb := range ps.b.Term.Targets {
+					if tb == st.sk[i].b {
+						edges = append(edges, p)
+					}
+				}
+			}
+			for _, p := range edges {
+				v, ok := byPred[p]
+				if !ok {
+					v = g.pickAvailable(st, p, len(st.vals[p]), phi.T, true)
+					byPred[p] = v
+				}
 				phi.Incs = append(phi.Incs, &am.Incoming{V: v, Pred: st.sk[p].b})
 			}
 		}
